@@ -417,7 +417,17 @@ func suiteTtml(R *runner, r *rng) {
 		R.countN("ttml.cues", len(d.Cues))
 		o.NT = len(d.V.Styles) > 0 || nl > 1
 		R.add(o)
+		// byte level: the extended Coq XML parser (Kit/XmlParse2.v) vs encoding/xml on the rendered document, and the
+		// byte-level reader model (that parser, then the tree reader) vs ReadFromTTML
+		if root, simple, perr := parseXMLTree([]byte(doc)); perr == nil {
+			R.add(&obs{Suite: "xmlparse2", Group: "ttml.read.xmlparse2", Input: (&enc{}).bytes([]byte(doc)).String(), Impl: (&enc{}).n(0).xnode(root).String(), NT: o.NT})
+			R.add(&obs{Suite: "ttmlreadbytes2", Group: "ttml.read.bytes", Input: (&enc{}).bool(simple).bytes([]byte(doc)).String(), Impl: o.Impl, NT: o.NT})
+		}
 	}
+	for k, v := range ttFreedoms {
+		R.countN("ttml.freedom."+k, v)
+	}
+	ttFreedoms = map[string]int{}
 	// crafted documents (regressions of what the checks found, one concern each)
 	for _, cd := range ttCorpus {
 		o := ttReadObs(cd.doc, nil, "ttml.read.corpus", map[string]interface{}{"doc": cd.doc, "note": cd.note})
@@ -430,14 +440,45 @@ func suiteTtml(R *runner, r *rng) {
 		}
 		R.add(o)
 	}
-	// repository samples (model comparison)
+	// the worked example of the composite reading theorem, replayed on the library
+	{
+		o := &obs{Suite: "ttmlrenderex", Group: "ttml.read.rendered_example", NT: true, Human: map[string]interface{}{"doc": ttRenderExDoc}}
+		root, _, perr := parseXMLTree([]byte(ttRenderExDoc))
+		impl, _, problems, _, rerr := ttReadImpl([]byte(ttRenderExDoc))
+		switch {
+		case perr != nil || rerr != nil:
+			o.NoModel, o.Impl = true, "1"
+			o.Oracle, o.Sig = fmt.Sprintf("worked example rejected: %v / %v", perr, rerr), "ttml-rendered-example"
+		case len(problems) > 0:
+			o.NoModel, o.Impl = true, "1"
+			o.Oracle, o.Sig = problems[0], "ttml-rendered-example"
+		default:
+			o.Input = (&enc{}).xnode(root).String()
+			o.Impl = "1 " + strings.TrimPrefix(impl, "0 ")
+		}
+		R.add(o)
+	}
+	// repository samples (model comparison; the extended XML parser where it applies: no CR, CDATA, DOCTYPE)
+	xp2 := func(doc []byte, group string) {
+		if bytes.IndexByte(doc, '\r') >= 0 || bytes.Contains(doc, []byte("<![CDATA[")) || bytes.Contains(doc, []byte("<!DOCTYPE")) {
+			return
+		}
+		if root, _, perr := parseXMLTree(doc); perr == nil {
+			R.add(&obs{Suite: "xmlparse2", Group: group, Input: (&enc{}).bytes(doc).String(), Impl: (&enc{}).n(0).xnode(root).String(), NT: true})
+		}
+	}
 	for _, f := range []string{"example-in.ttml", "example-in-breaklines.ttml", "example-out.ttml", "example-out-breaklines.ttml", "example-out-no-indent.ttml"} {
 		if b, err := readRepoFile("testdata/" + f); err == nil {
 			o := ttReadObs(string(b), nil, "ttml.read.testdata", map[string]interface{}{"file": f})
 			o.NT = true
 			R.add(o)
+			xp2(b, "ttml.read.testdata.xmlparse2")
 		}
 	}
+	for _, cd := range ttCorpus {
+		xp2([]byte(cd.doc), "ttml.read.corpus.xmlparse2")
+	}
+	xp2([]byte(ttRenderExDoc), "ttml.read.corpus.xmlparse2")
 	// mutated documents (model comparison: values inside the faithful domain, class outside)
 	frags := []string{"<br/>", "<span>", "</span>", "<p>", "</p>", " ", "\n", "\n   ", "&amp;", "&#10;", "&#32;", "<!-- c -->", "<![CDATA[x]]>", "<span tts:zIndex=\"x\">", " style=\"nope\"", " begin=\"1s\"", " end=\"x\"", "<BR/>", "<x:br/>", "<b>bold</b>", "<span><span>n</span><br/></span>", " ", "\r\n", "<?pi?>", "<div>", "</div>", " region=\"r0\"", " tts:color=\"c1\" color=\"c2\"", "<style xml:id=\"s0\"/>", "<style xml:id=\"zz\" style=\"nope\"/>", "<metadata><ttm:title>t2</ttm:title></metadata>", "<head/>", " ttp:frameRate=\"x\"", " ttp:frameRate=\" 30 \"", " xml:lang=\"e\""}
 	for c := 0; c < N; c++ {
@@ -572,7 +613,7 @@ func suiteTtml(R *runner, r *rng) {
 		addT(expr+u, 0, 0, "ttml.time.random")
 	}
 	// malformed and unusual strings: model comparison only
-	bad := []string{"", " ", "1", "1.5", "1s ", " 1s", "1.s", ".5s", "1:2", "01:02", "1:2:3:4:5", "00:00:01.1234", "1e3s", "-1s", "+1s", "１s", "00:00:61", "1,5s", "00:00:01:", ":00:00:01", "00::01", "00:00:01:1:", "00:00:01:xx", "5 f", "5F", "5S", "5ms ", "5mss", "5hs", "00:00:01.5s", "1.2.3s", "99999999999999999999s", "0.99999999999999999999s", "00:00:01:99999999999999999999", "123456789012345f", "1234567890123456f", "9223372036854775807t", "00:00:01;05", "00:00:01.000:05", "00:00:01:05.5", "10f\n", "\n10f", "00:00:01\n", "0x10s", "1_0s", "1h30m", "12:34:56.789", "12:34:56:2", "123.4h", "6t", "00:01", "1:02", "a:b:c", "00:00:-1", "00:00:+1", "00: 00 : 01", "00:00:01 .5", "00:00:01. 5", "4294967296f", "18446744073709551616t"}
+	bad := []string{"9007199254.740993s", "", " ", "1", "1.5", "1s ", " 1s", "1.s", ".5s", "1:2", "01:02", "1:2:3:4:5", "00:00:01.1234", "1e3s", "-1s", "+1s", "１s", "00:00:61", "1,5s", "00:00:01:", ":00:00:01", "00::01", "00:00:01:1:", "00:00:01:xx", "5 f", "5F", "5S", "5ms ", "5mss", "5hs", "00:00:01.5s", "1.2.3s", "99999999999999999999s", "0.99999999999999999999s", "00:00:01:99999999999999999999", "123456789012345f", "1234567890123456f", "9223372036854775807t", "00:00:01;05", "00:00:01.000:05", "00:00:01:05.5", "10f\n", "\n10f", "00:00:01\n", "0x10s", "1_0s", "1h30m", "12:34:56.789", "12:34:56:2", "123.4h", "6t", "00:01", "1:02", "a:b:c", "00:00:-1", "00:00:+1", "00: 00 : 01", "00:00:01 .5", "00:00:01. 5", "4294967296f", "18446744073709551616t"}
 	for _, s := range bad {
 		for _, rt := range [][2]int{{25, 4}, {0, 0}, {30, 10000000}, {-5, -5}} {
 			R.add(ttTimeObs(s, rt[0], rt[1], nil, "ttml.time.malformed"))
@@ -818,6 +859,32 @@ var ttCorpus = []ttCorpusDoc{
 		}
 		return ""
 	}},
+	// necessity of the composite theorem's side conditions (coq/Proofs/TtmlRenderNeeded.v), replayed on the library
+	{"bare_text_no_leading_blank_needed: the leading blank of bare text is taken for indentation", `<tt><body><div><p begin="1s" end="2s"> x</p></div></body></tt>`, func(v tvDoc) string {
+		if len(v.Items) != 1 || len(v.Items[0].Lines) != 1 || len(v.Items[0].Lines[0]) != 1 || v.Items[0].Lines[0][0].Text != "x" {
+			return "lines " + showLines(v.Items[0].Lines)
+		}
+		return ""
+	}},
+	{"one_line_needed: an empty p reads as one empty line", `<tt><body><div><p begin="1s" end="2s"></p></div></body></tt>`, func(v tvDoc) string {
+		if len(v.Items) != 1 || len(v.Items[0].Lines) != 1 || len(v.Items[0].Lines[0]) != 0 {
+			return "lines " + showLines(v.Items[0].Lines)
+		}
+		return ""
+	}},
+	{"distinct_ids_needed: a duplicate style identifier leaves one style", `<tt><head><styling><style id="a"/><style id="a"/></styling></head><body><div><p begin="1s" end="2s">x</p></div></body></tt>`, func(v tvDoc) string {
+		if len(v.Styles) != 1 {
+			return fmt.Sprintf("%d styles", len(v.Styles))
+		}
+		return ""
+	}},
+	{"positive_rate_needed: a frame count without a frame rate contributes nothing", `<tt><body><div><p begin="25f" end="2s">x</p></div></body></tt>`, func(v tvDoc) string {
+		if v.Items[0].St != 0 {
+			return fmt.Sprintf("begin read as %d", v.Items[0].St)
+		}
+		return ""
+	}},
+	{"closed_references_needed: p naming an undefined style", `<tt><body><div><p begin="1s" end="2s" style="z">x</p></div></body></tt>`, nil},
 	{"p without begin", ttWrap("", `<p end="2s">x</p>`), nil},
 	{"unknown style", ttWrap("", `<p begin="1s" end="2s" style="nope">x</p>`), nil},
 	{"unknown parent", ttWrap(`<head><styling><style xml:id="a" style="nope"/></styling></head>`, `<p begin="1s" end="2s">x</p>`), nil},
